@@ -40,9 +40,11 @@ where
     type Content = DataView<Self>;
 
     async fn from_body(body: Body) -> Result<Self::Content, Status> {
+        // A body that cannot be read to its end means the connection was
+        // closed or interrupted, not that a handler failed.
         let bytes = crate::utils::to_aligned(body.0)
             .await
-            .map_err(Status::internal)?;
+            .map_err(Status::connection)?;
 
         DataView::using(bytes).map_err(|_| Status::invalid())
     }
